@@ -141,6 +141,59 @@ def c02_program_reuse(run, tier, seed):
     return s
 
 
+def program_reuse_maps(run, tier, seed, prop):
+    """one Program, two sources: the second re-declares the address mapping (same identifier with another geometry, or a new
+    identifier over banks the first source used), or follows a source that failed at top level after emitting bytes"""
+    import os
+    from a816.program import Program
+    rng = core.rng_for(seed, prop + "-reuse-maps")
+    s = core.Stream("S4-program-reuse-maps", "a Program assembles a first source (its own .map layout, code in primary and mirror banks, a branch relocated with @=; or a source that fails at top level after emitting bytes) and then a second source that begins with its own .map lines / `*=`: blocks, offsets and acceptance of the second equal those of a fresh Program (banks looked up under the first layout are translated under the second; nothing emitted by the failed source reaches the second writer); non-trivial = distinct scenarios")
+
+    def assemble(prog, src):
+        w = impl.CollectWriter()
+        try:
+            with impl.quiet(), core.watchdog(20):
+                try:
+                    err = prog.assemble_string_with_emitter(src, "reuse.s", w)
+                except Exception:  # noqa: BLE001
+                    return ("rejected",)
+        except core.Timeout:
+            return ("timeout",)
+        return ("rejected",) if err is not None else list(w.blocks)
+    pairs = []
+    for i in range(6 if tier == "quick" else 60):
+        bank = rng.randrange(1, 0x30)
+        mb = 0x80 + bank
+        d = [rng.randrange(256) for _ in range(4)]
+        m32 = ".map identifier=1 bank_range=0x00,0x3f addr_range=0x8000,0xffff mask=0x8000 mirror_bank_range=0x80,0xbf\n"
+        m64 = ".map identifier=1 bank_range=0x00,0x3f addr_range=0x0000,0xffff mask=0x10000 mirror_bank_range=0x80,0xbf\n"
+        body = f"*=0x{mb:02x}8000\n.db {d[0]}, {d[1]}\nl1:\n.dl l1\n*=0x{bank:02x}9000\n.db {d[2]}\n*=0x{mb:02x}ffff\n.db {d[3]}, {d[0]}\nl2:\n.dl l2\n"
+        pairs.append(("remap-same-identifier", m32 + body, m64 + body))
+        pairs.append(("remap-same-identifier", m64 + body, m32 + body))
+        rom = ".map identifier=1 bank_range=0x00,0x7f addr_range=0x8000,0xffff mask=0x8000\n"
+        ram = ".map identifier=2 bank_range=0x7e,0x7f addr_range=0,0xffff mask=0x10000 writable=1\n"
+        br = rng.choice(["bra", "bne", "bcc", "bmi"])
+        code = f"*=0x{bank:02x}8000\n.db {d[0]}\n@=0x7e{0x8000 + rng.randrange(0x7000):04x}\nl:\n{rng.choice(["", "nop\n"])}{br} l\n"
+        pairs.append(("bank-becomes-ram", rom + code, rom + ram + code))
+        # the second source only adds the RAM mapping (the ROM mapping of the first is still declared): the relocated
+        # branch now runs in RAM and must be refused -- expectation given, a fresh Program would know no ROM mapping
+        pairs.append(("bank-becomes-ram-added", rom + code, ram + code))
+        pairs.append(("after-top-level-failure", f"*=0x{bank:02x}8000\n.db {d[0]}, {d[1]}, {d[2]}\n.db undefined_zq_{i}\n", f"*=0x{bank + 1:02x}8000\n.db {d[3]}\nl:\n.dl l\n"))
+    for kind, a_src, b_src in pairs:
+        prog = Program()
+        assemble(prog, a_src)
+        again = assemble(prog, b_src)
+        fresh = ("rejected",) if kind == "bank-becomes-ram-added" else assemble(Program(), b_src)
+        s.cases += 1
+        s.nontrivial.add((kind, b_src))
+        s.count(kind + (":rejected" if fresh == ("rejected",) else ":ok"))
+        if again != fresh:
+            s.violate({"first": a_src, "second": b_src, "api": "one Program: assemble_string_with_emitter(first); assemble_string_with_emitter(second)"}, str(fresh)[:300], str(again)[:300],
+                      "the second source of a re-used Program is placed / accepted differently than by a fresh Program (an address, a bank lookup or block bytes of the first assembly are still in use)")
+    s.sample({"first": pairs[0][1], "second": pairs[0][2]})
+    return s
+
+
 # ------------------------------------------------------------------------------------------------ C03
 def c03_streams(run, tier, seed):
     rng = core.rng_for(seed, "c03-pos")
@@ -236,7 +289,7 @@ def c03_streams(run, tier, seed):
                 s.violate({"src": pr["src"], "p_zq.ips": pr["bins"]["p_zq.ips"].hex()}, {"records written at offset + delta of each inclusion": [(a, d.hex()) for a, d in pr["ips_expect"]][:8]},
                           {"not written": missing[:6]}, "an IPS file included several times with different deltas: some inclusion's records are not placed at their offset plus that inclusion's delta")
     s.sample({"rom": progs[0]["rom"], "src": progs[0]["src"][:300]})
-    return [s, c03_ram_sections(run, tier, seed), c03_positions_in_bodies(run, tier, seed)]
+    return [s, c03_ram_sections(run, tier, seed), c03_positions_in_bodies(run, tier, seed), program_reuse_maps(run, tier, seed, "C03")]
 
 
 def c03_positions_in_bodies(run, tier, seed):
@@ -488,7 +541,7 @@ def c05_streams(run, tier, seed):
         elif data is not None:
             s.violate(inp, "rejected (out of range)", data[-2:].hex(), "an out-of-range displacement is truncated instead of rejected")
     s.sample({"src": progs[0]["src"]})
-    return [s]
+    return [s, program_reuse_maps(run, tier, seed, "C05")]
 
 
 # ------------------------------------------------------------------------------------------------ C07
